@@ -1,5 +1,5 @@
 SPECIFICATION Spec
-CONSTANTS Shards = {s1, s2} NR = 2 MaxBulk = 3 SizeSet = {2} MaxFaults = 2 MaxTries = 3 MaxSearch = 1 MaxInflight = 1
+CONSTANTS Shards = {s1, s2} NR = 2 MaxBulk = 3 SizeSet = {1} MaxFaults = 2 MaxTries = 3 MaxSearch = 1 MaxInflight = 1
   Pages <- PagesAll Lag = FALSE Seals = FALSE Shuffles = {FALSE} Mut = "none"
 SYMMETRY Sym
 CONSTRAINT StopAfterLastSearch
